@@ -50,7 +50,7 @@ func registerKyber(P *Program) {
 	opaqueMethods["kyber.point.UnmarshalBinary"] = func(in *Interp, op *Opaque, args []Value) Value {
 		b := args[0].(SliceV)
 		s := in.sliceStr(b)
-		if s.op == OApp && (s.s == "kyber.pub" || s.s == "dkg.dealer.commit") {
+		if s.op == OApp && (s.s == "kyber.pub" || s.s == "dkg.dealer.commit" || s.s == "dkg.dist.commit") {
 			op.Data.(*kPoint).enc = s // the encoding of a point always decodes (dec(enc(p)) = p)
 			return Iface{}
 		}
@@ -64,6 +64,9 @@ func registerKyber(P *Program) {
 		p := op.Data.(*kPoint)
 		if p.enc == nil {
 			return Tuple{in.mkBytes(make([]byte, 96)), Iface{}}
+		}
+		if !p.enc.IsConst() {
+			in.addPC(in.ts.ILe(in.ts.Int(1), in.ts.SLen(p.enc))) // a marshalled point is not empty (48 or 96 bytes)
 		}
 		return Tuple{in.strToBytes(p.enc), Iface{}}
 	}
